@@ -17,6 +17,13 @@ def label(u: Universe, prefix: str, idx: int, key: str) -> str:
     return f"{prefix}:c{idx}:{key}:{n}"
 
 
+class _Race19(__import__("vk.checks.c19", fromlist=["Race"]).Race):
+    id = "C02"
+
+
+_R19 = _Race19()
+
+
 class C02(CtxCheck):
     id = "C02"
     aspects = {"visible", "generated-scope"}
@@ -309,9 +316,20 @@ class C02(CtxCheck):
     def units(self, tier: str, seed: int) -> list:
         from .c04race import adder_units
 
-        return self._units0(tier, seed) + adder_units(tier)
+        from .c19 import RACE as R19
+
+        # race19: sibling contexts calling one injected coroutine function concurrently - what is injected into a call made in one
+        # context never comes from its sibling
+        return self._units0(tier, seed) + adder_units(tier) + [{"race19": u} for u in R19.units(tier, seed)]
 
     def work(self, unit: dict, tier: str) -> dict:
+        if "race19" in unit:
+            s = _R19.work(unit["race19"], tier)
+            for v in s["violations"]:
+                v["program"] = {"race19": v["program"]["race"]}
+                v["keys"] = ["visible" if k == "cross-talk" else k for k in v["keys"]]
+            s["keyhist"] = {("visible" if k == "cross-talk" else k): n for k, n in s.get("keyhist", {}).items()}
+            return s
         if "race" in unit:
             from .c04race import RACE
 
@@ -323,6 +341,8 @@ class C02(CtxCheck):
         return self._work0(unit, tier)
 
     def replay(self, rec: dict):  # type: ignore[no-untyped-def]
+        if "race19" in rec.get("program", {}):
+            return _R19.replay(dict(rec, program=rec["program"]["race19"]))
         if "race" in rec.get("program", {}):
             from .c04race import RACE
 
